@@ -6,7 +6,7 @@ from sa.model import AnalysisError
 PARENS_KINDS = ('PAdd', 'PMul', 'PDiv', 'PPow')
 
 
-def judge_printer(ctx, rule, relpath, clsname, lang, floor=13):
+def judge_printer(ctx, rule, relpath, clsname, lang, floor=13, child_filter=None):
     m = ctx.model
     cls = m.get_class(relpath, clsname)
     bad = m.unresolved_bases(cls)
@@ -22,7 +22,7 @@ def judge_printer(ctx, rule, relpath, clsname, lang, floor=13):
             raise AnalysisError(f'{clsname}: slot {slot} was not extracted from the handlers')
         s = mf.slots[slot]
         for child, verdict in sorted(row.items()):
-            if verdict == 'n/a':
+            if verdict == 'n/a' or (child_filter is not None and not child_filter(child)):
                 continue
             n += 1
             emits, why = mf.emits_parens(slot, child)
@@ -41,7 +41,7 @@ def judge_printer(ctx, rule, relpath, clsname, lang, floor=13):
                              f'(value-correct with common compilers, not standard {lang})')
                 ctx.judge(rule, inst, nontrivial=(verdict == 'need'), facts=facts)
         # explicitly parenthesised nodes must always come out parenthesised
-        for pk in PARENS_KINDS:
+        for pk in PARENS_KINDS if child_filter is None else ():
             n += 1
             if mf.own.get(pk) == 'always':
                 ctx.judge(rule, f'{clsname}:{slot}<-{pk}', nontrivial=False)
